@@ -136,6 +136,10 @@ def build_case(r: random.Random, idx: int, tier: str, forced=None):
     if resync == 'flush-while-down' and not flush_first:
         steps.append(['api', 'rib flush out'])
     steps += [['sleep', 0.2], ['accept', 60.0], ['mark', 'second-session'], ['establish']]
+    if H < 90:
+        # the hold time of the 'hold' cases is short on purpose (the first session is lost by letting it run out): the second
+        # session must not be lost the same way while a long table is going out
+        steps.append(['keepalives', H / 3.0])
     late = []
     withdrawn_down = [p for p, _, _ in withdrawn]
     if resync in ('refresh-at-start', 'refresh+api'):
@@ -383,7 +387,19 @@ def run_daemon(desc):
                     break
             peer = d.accept(timeout=60)
             peer.establish(65001, hold=90)
-            rx = peer.drain(quiet=1.5, limit=60)
+            # until the End-of-RIB has come and the daemon has been quiet (on a loaded machine a pause in the middle of the
+            # table is not the end of it); bounded by 90 s of real time
+            rx = []
+            t_end = time.monotonic() + 90
+            while time.monotonic() < t_end:
+                got = peer.drain(quiet=1.5, limit=20)
+                rx += got
+                if any(t_ is None or t_ == 3 for t_, _ in got):
+                    break
+                if any(t_ == 2 and bytes(b_) == b'\x00\x00\x00\x00' for t_, b_ in rx) and not got:
+                    break
+                if not got and len(rx) == 0:
+                    continue
         except daemon.Inconclusive as e:
             daemon.skipped(res, str(e))
             continue
